@@ -58,6 +58,8 @@ def _cases(tier):
     ch3 = T.prog([T.fn("na", ["e0"], ["a0"]), T.fn("nb", ["a0"], ["b0"]), T.fn("nc", ["b0"], ["c0"])], select=["c0"])
     yield ("select-override", ch3, e, {"select": "**"})
     yield ("select-override-list", ch3, e, {"select": ["a0", "c0"]})
+    yield ("select-on-missing-error", ch3, e, {"select": ["a0", "c0"], "on_missing": "error"})
+    yield ("select-on-missing-warn", ch3, e, {"select": ["b0", "c0"], "on_missing": "warn"})
     yield ("nested-fanout", T.nested_fanout(), {"e0": ["prov", "e0"]}, {})
     yield ("mapping-node", T.mapped_node(), {"e0": ["prov", "e0"], "x": [["i", 0], ["i", 1]]}, {})
     yield ("runner.map", c15.map_item_graph(True), {"x": [["i", 0], ["i", 1], ["i", 2]]}, {"method": "map", "map_over": "x"})
